@@ -23,7 +23,7 @@ TO = 30
 
 
 def floors(tier):
-    return {'distinct_nontrivial': 1200 if tier == 'quick' else 30000, 'outer_generic_cases': 250, 'outertan_points': 60,
+    return {'distinct_nontrivial': 1200 if tier == 'quick' else 250000, 'outer_generic_cases': 250, 'outertan_points': 60,
             'exp_positive_square': 60, 'exp_zero_square': 40, 'exp_negative_square': 60, 'exp_rotated_operands': 60,
             'exp_kind_float': 60, 'exp_kind_int': 30, 'exp_kind_complex': 20, 'exp_kind_sympy': 20, 'exp_kind_array0d': 10,
             'sqrt_squares_back': 200, 'sqrt_B2_negative': 40, 'sqrt_B2_positive': 40, 'sqrt_B2_zero': 30, 'pow_half_is_sqrt': 150,
@@ -41,7 +41,7 @@ def plan(tier, seed):
         cfgs += [gen.random_custom_cfg(rng, rng.choice((2, 3, 4))) for _ in range(30)] + gen.NAMED
         cfgs += [{'p': 2, 'q': 0, 'r': 0, 'opts': {'symcls': 'sympy'}}, {'p': 1, 'q': 1, 'r': 0, 'opts': {'symcls': 'sympy'}},
                  {'p': 3, 'q': 0, 'r': 0, 'opts': {'cse': False}}]
-        per = 30
+        per = 360
     U = [{'cfg': c, 'per': per} for c in cfgs]
     rng.shuffle(U)
     return [{'units': part} for part in gen.split(U, 16 if tier == 'quick' else 64)]
